@@ -211,6 +211,7 @@ if __name__ == '__main__':
 # directed time-travel corpus (run by C02, C03, C15 on top of the random histories): each takes
 # two small ints; both outcomes of every defeat condition are covered by the argument grid
 DIRECTED_TT = [
+    'int g = 13;\nbool gb = true;\nint f(int v) { g += v; return g; }\nempty @is_you(int a, int b) { g = (g + a) ?? b; write(g); write(\' \'); g = f(a) ?? (g + b); write(g); write(\' \'); gb = (g > 14) ?? gb; write(gb); g = (g * 2) ?? (g + g); write(g); }\n',
     'empty !pd(int c) { preempt { write("D"); } !truth_is_defeat(c > 1); write("e"); }\n'
     'empty @is_you(int a, int b) { try { write("<"); !pd(a); write(">"); } stop { write("S"); } try { !pd(b); write("k"); } undo { write("U"); } write("."); }\n',
     'int g = 0;\nempty !pr(int n, int c) { if (n > 0) { preempt { write("^"); g += 1; } !pr(n - 1, c); write(n); } else { !truth_is_defeat(c > g); } }\n'
